@@ -30,7 +30,11 @@ ASSUMPTIONS = ["pathmodel (appendix A.7) confirmed by os.path.samefile and by gc
 REQUIRED_HOOKS = ["load_database", "H-gcc-cwd", "H-log"]
 
 TREE = {
-    "src/a.c": '#include "h.h"\ncbi_m_a_2;\n#ifdef FROM_H\ncbi_m_a_4;\n#endif\n',
+    "src/a.c": '#include "h.h"\ncbi_m_a_2;\n#ifdef FROM_H\ncbi_m_a_4;\n#endif\n#ifdef PRE\ncbi_m_a_7;\n#else\ncbi_m_a_9;\n#endif\n',
+    # needs a search directory whose name contains a blank; tests the macro of a forced include
+    "src/d.c": '#include <sp.h>\ncbi_m_d_2;\n#ifdef SP\ncbi_m_d_4;\n#endif\n#ifdef PRE\ncbi_m_d_7;\n#else\ncbi_m_d_9;\n#endif\n',
+    "my inc/sp.h": "#define SP 1\ncbi_m_sp_2;\n",
+    "cfg/pre.h": "#define PRE 1\ncbi_m_pre_2;\n",
     "src/sub/b.c": '#include "h.h"\n#include <g.h>\ncbi_m_b_3;\n',
     "src/c.cpp": "cbi_m_c_1;\n#ifdef X\ncbi_m_c_3;\n#endif\n",
     "inc/h.h": "#define FROM_H 1\ncbi_m_h_2;\n",
@@ -43,7 +47,7 @@ TREE = {
     "build/obj.o": "\x7fELF",
     "build/gen.txt": "x\n",
 }
-DIRS = ["src", "src/sub", "inc", "inc2", "other", "build", "build/deep", "build/a", "build/b"]
+DIRS = ["src", "src/sub", "inc", "inc2", "other", "build", "build/deep", "build/a", "build/b", "my inc", "cfg"]
 
 
 def bounds(tier):
@@ -60,7 +64,8 @@ def required_cells(tier):
         cells.append("inc:" + i)
     cells += ["wd:root", "wd:build-inside", "wd:build-outside", "skip:missing/first", "skip:missing/middle", "skip:missing/last",
               "skip:object", "skip:link", "skip:empty-command", "skip:empty-arguments", "skip:blank-command", "relative-I-missing-in-build-dir", "unnamed-file-unattributed",
-              "gcc-confirmed", "class:grid", "class:random", "same-spelling-different-build-dirs"]
+              "gcc-confirmed", "class:grid", "class:random", "same-spelling-different-build-dirs", "forced-include:rel",
+              "forced-include:abs", "forced-include:dots", "search-dir-with-blank:command", "search-dir-with-blank:arguments"]
     return cells
 
 
@@ -90,7 +95,7 @@ def spell(path, wd, style):
     raise ValueError(style)
 
 
-def make_entry(root, base, src, wd_kind, dstyle, fstyle, istyle, defines=(), form="arguments"):
+def make_entry(root, base, src, wd_kind, dstyle, fstyle, istyle, defines=(), form="arguments", pre=None):
     """One correct database entry for source `src` (root-relative) compiled in working directory wd_kind."""
     wd = {"absent": root, "root": root, "build-inside": os.path.join(root, "build"),
           "build-deep": os.path.join(root, "build", "deep"), "build-outside": os.path.join(base, "outbuild")}[wd_kind]
@@ -103,7 +108,16 @@ def make_entry(root, base, src, wd_kind, dstyle, fstyle, istyle, defines=(), for
         fsp = spell(srcpath, wd, fstyle)
     incs = [spell(os.path.join(root, "inc"), wd, istyle), spell(os.path.join(root, "inc2"), wd, "abs" if istyle == "rel" else istyle)]
     argv = ["gcc"] + ["-D" + d for d in defines]
-    argv += ["-I", incs[0], "-I" + incs[1], "-c", fsp]
+    argv += ["-I", incs[0], "-I" + incs[1]]
+    want_inc = [os.path.join(root, "inc"), os.path.join(root, "inc2")]
+    if src == "src/d.c":
+        sp = spell(os.path.join(root, "my inc"), wd, istyle)
+        argv += ["-I", sp] if len(defines) % 2 == 0 else ["-I" + sp]
+        want_inc.append(os.path.join(root, "my inc"))
+    if pre:
+        # forced include spelled for a process running in wd (a compiler looks there first)
+        argv += ["-include", spell(os.path.join(root, "cfg", "pre.h"), wd, pre)]
+    argv += ["-c", fsp]
     e = {"file": fsp}
     if wd_kind != "absent":
         if dstyle == "abs":
@@ -118,7 +132,7 @@ def make_entry(root, base, src, wd_kind, dstyle, fstyle, istyle, defines=(), for
         import shlex
         e["command"] = shlex.join(argv)
     meta = {"src": src, "wd": wd, "wd_kind": wd_kind, "dstyle": dstyle if wd_kind != "absent" else "absent",
-            "fstyle": fstyle, "istyle": istyle, "argv": argv, "defines": list(defines)}
+            "fstyle": fstyle, "istyle": istyle, "argv": argv, "defines": list(defines), "want_inc": want_inc, "pre": pre}
     return e, meta
 
 
@@ -162,6 +176,10 @@ def check_db(ctx, base, root, entries, metas, skips, cls):
     cells = {"class:" + cls}
     for m in metas:
         if m:
+            if m.get("pre"):
+                cells.add("forced-include:" + m["pre"])
+            if m["src"] == "src/d.c":
+                cells.add("search-dir-with-blank:" + ("command" if "command" in entries[metas.index(m)] else "arguments"))
             cells.add("directory:" + m["dstyle"])
             cells.add("file:" + m["fstyle"])
             cells.add("inc:" + m["istyle"])
@@ -190,7 +208,7 @@ def check_db(ctx, base, root, entries, metas, skips, cls):
                 want = os.path.join(root, m["src"])
                 if not (os.path.exists(e["file"]) and os.path.samefile(e["file"], want)):
                     problems.append({"kind": "file-resolution", "entry": m["argv"], "directory": m["wd"], "expected": want, "observed": e["file"]})
-                wi = [os.path.join(root, "inc"), os.path.join(root, "inc2")]
+                wi = list(m.get("want_inc") or [os.path.join(root, "inc"), os.path.join(root, "inc2")])
                 if m.get("n_inc") == 3:
                     wi = [m["wd"]] + wi
                 oi = e["include_paths"]
@@ -250,7 +268,7 @@ def run_shard(ctx):
     idx = 0
     # E: spelling grid for single entries
     for src, wd_kind, dstyle, fstyle, istyle, form in itertools.product(
-            ["src/a.c", "src/sub/b.c"], ["absent", "root", "build-inside", "build-deep", "build-outside"],
+            ["src/a.c", "src/sub/b.c", "src/d.c"], ["absent", "root", "build-inside", "build-deep", "build-outside"],
             ["abs", "rel", "dots"], ["abs", "rel", "dots", "via-link"], ["abs", "rel", "dots"], ["arguments", "command"]):
         if wd_kind == "absent" and dstyle != "abs":
             continue
@@ -259,7 +277,7 @@ def run_shard(ctx):
         idx += 1
         if not ctx.mine(idx):
             continue
-        e, m = make_entry(root, base, src, wd_kind, dstyle, fstyle, istyle, form=form)
+        e, m = make_entry(root, base, src, wd_kind, dstyle, fstyle, istyle, form=form, pre=[None, "rel", "abs", "dots"][idx % 4])
         check_db(ctx, base, root, [e], [m], [], "grid")
     # skipped entries in first / middle / last position
     for kind in SKIPS:
@@ -343,9 +361,10 @@ def run_shard(ctx):
             else:
                 wd_kind = rng.choice(["absent", "root", "build-inside", "build-deep", "build-outside"])
                 dstyle = "abs" if wd_kind in ("absent", "build-outside") else rng.choice(["abs", "rel", "dots"])
-                e, m = make_entry(root, base, rng.choice(["src/a.c", "src/sub/b.c", "src/c.cpp"]), wd_kind, dstyle,
+                e, m = make_entry(root, base, rng.choice(["src/a.c", "src/sub/b.c", "src/c.cpp", "src/d.c"]), wd_kind, dstyle,
                                   rng.choice(["abs", "rel", "dots", "via-link"]), rng.choice(["abs", "rel", "dots"]),
-                                  defines=rng.choice([[], ["X"], ["X=1", "Y"]]), form=rng.choice(["arguments", "command"]))
+                                  defines=rng.choice([[], ["X"], ["X=1", "Y"]]), form=rng.choice(["arguments", "command"]),
+                                  pre=rng.choice([None, None, "rel", "abs", "dots"]))
                 es.append(e)
                 ms.append(m)
         if ctx.mine(i):
